@@ -9,8 +9,11 @@
 #include "stir/IndexRange.h"
 #include "stir/BasicCoordinate.h"
 #include "stir/shared_ptr.h"
+#include "stir/array_index_functions.h"
+#include "stir/copy_fill.h"
 #include <memory>
 #include <optional>
+#include <set>
 #include <iostream>
 #include <cstdlib>
 
@@ -61,6 +64,45 @@ struct Counted
 long Counted::live = 0;
 long Counted::bad = 0;
 
+// ---- known findings: narrow sub-case exclusions (switched off with VERIF_NO_EXCLUDE=1; probes under known/C11/) ------------
+//  C11:IndexRange:stale-regularity-flag   IndexRange<n> caches "regular / not regular"; the cache is not invalidated when the
+//        range is changed through the (public) VectorWithOffset interface it inherits (the idiom of ML_norm.cxx: default-construct,
+//        grow, assign the rows): is_regular(), get_regular_range() and size_all() then answer for the OLD contents, and
+//        Array<n>(range) allocates size_all() elements and writes all rows (heap overflow).
+//  C11:next:empty-row   next(index, array) / get_min_indices(array) of array_index_functions.inl step INTO zero-length rows:
+//        the documented loop visits multi-indices that are not in the array.
+// set to false when the corresponding repair is in /repo (the sub-case is then part of the normal search again)
+constexpr bool EXCLUDE_INDEXRANGE_STALE_FLAG = true;
+constexpr bool EXCLUDE_NEXT_EMPTY_ROW = false; // repaired in /repo (replays/C11/fixed_next_empty_row.json)
+std::set<std::string> g_excluded_in_case;
+bool
+no_exclude()
+{
+  static const bool v = std::getenv("VERIF_NO_EXCLUDE") != nullptr;
+  return v;
+}
+//! true = this sub-case is a known finding and is left out (counted); false = it is checked
+bool
+excluded(const char* sig)
+{
+  if (no_exclude())
+    return false;
+  if ((!EXCLUDE_INDEXRANGE_STALE_FLAG && std::string(sig) == "C11:IndexRange:stale-regularity-flag")
+      || (!EXCLUDE_NEXT_EMPTY_ROW && std::string(sig) == "C11:next:empty-row"))
+    return false;
+  // development aid: C11_NO_EXCLUDE=<part of a signature> switches a single exclusion off
+  static const char* one = std::getenv("C11_NO_EXCLUDE");
+  if (one && std::string(sig).find(one) != std::string::npos)
+    return false;
+  // each signature is counted once per case (the exclusion itself applies to every occurrence)
+  if (g_excluded_in_case.insert(sig).second)
+    {
+      vf::stats().excluded_known++;
+      vf::stats().count(std::string("excluded:") + sig);
+    }
+  return true;
+}
+
 template <class T> T mk(int x) { return T(x); }
 template <class T> bool same(const T& a, const T& b) { return a == b; }
 template <> bool same<float>(const float& a, const float& b) { return a == b || (std::isnan(a) && std::isnan(b)); }
@@ -103,15 +145,19 @@ struct OpCtx
   std::string where;
 };
 
-template <class Vec, class T, bool is_array, bool zero_new_>
+// is_array: Array<1,T> (zero-filling resize, Array-only API); is_numeric: the arithmetic family of NumericVectorWithOffset
+// (+= etc. grow to the hull, scalar operands, xapyb/sapyb); plain VectorWithOffset has neither.
+template <class Vec, class T, bool is_array, bool zero_new_, bool is_numeric = is_array>
 struct Interp1
 {
   static constexpr int NS = 3;
-  std::unique_ptr<Vec> o[NS];
-  M1<T> m[NS];
-  // memory view (only for Array<1,float>): slot 0 may view buf
+  // buffers first: they are destroyed last, after every object that views them
+  std::vector<stir::shared_ptr<T[]>> old_bufs; // blocks viewed through the (deprecated) raw-pointer constructors stay alive
+  // memory view: slot 0 may view buf
   stir::shared_ptr<T[]> buf;
   int buf_len = 0;
+  std::unique_ptr<Vec> o[NS];
+  M1<T> m[NS];
   bool view_attached[NS] = { false, false, false }; // model: must still alias
   bool may_alias[NS] = { false, false, false };
 
@@ -202,27 +248,86 @@ struct Interp1
           }
         VF_CHECK(x.is_regular(), after, " is_regular");
         VF_CHECK(x.is_contiguous(), after, " is_contiguous");
-        // aliasing with the shared buffer
-        if (buf && may_alias[s])
+        // ---- entry points of Array<1> / IndexRange<1> / array_index_functions / copy_fill that only read (audit)
+        {
+          double accp = 0;
+          for (auto& e : mm.v)
+            if (e > 0)
+              accp += e;
+          VF_CHECK(same(x.sum_positive(), float(accp)), after, " sum_positive ", x.sum_positive(), " model ", float(accp));
+          stir::BasicCoordinate<1, int> rmn, rmx;
+          VF_CHECK(x.get_regular_range(rmn, rmx), after, " Array<1>::get_regular_range must say regular");
+          VF_CHECK(mm.empty() ? (rmx[1] == rmn[1] - 1) : (rmn[1] == mm.min && rmx[1] == mm.max()), after, " Array<1>::get_regular_range ",
+                   rmn[1], "..", rmx[1]);
+          VF_CHECK(r.is_regular() && r.size_all() == mm.v.size() && r.get_length() == int(mm.v.size()), after, " IndexRange<1> size");
+          VF_CHECK(r == IndexRange<1>(r.get_min_index(), r.get_max_index()), after, " IndexRange<1>::operator==");
+          if (!mm.empty())
+            {
+              stir::BasicCoordinate<1, int> c1, c2;
+              c1[1] = mm.min;
+              c2[1] = mm.max();
+              VF_CHECK(r == IndexRange<1>(c1, c2), after, " IndexRange<1>(BasicCoordinate,BasicCoordinate)");
+              VF_CHECK(!(r == IndexRange<1>(mm.min, mm.max() + 1)) && !(r == IndexRange<1>(mm.min + 1, mm.max() + 1)), after,
+                       " IndexRange<1>::operator== true for another range");
+              IndexRange<1> r2(int(mm.v.size()));
+              c1[1] = int(mm.v.size());
+              VF_CHECK(r2 == IndexRange<1>(c1) && r2.get_min_index() == 0 && r2.get_max_index() == int(mm.v.size()) - 1, after,
+                       " IndexRange<1>(length)");
+              r2.resize(mm.min, mm.max());
+              VF_CHECK(r2 == r, after, " IndexRange<1>::resize");
+              VF_CHECK(stir::get_min_indices(x)[1] == mm.min, after, " get_min_indices");
+              // the documented loop: do {...} while (next(index, array))
+              stir::BasicCoordinate<1, int> ci = stir::get_min_indices(x);
+              std::size_t k2 = 0;
+              do
+                {
+                  VF_CHECK(k2 < mm.v.size() && ci[1] == mm.min + int(k2), after, " next(): visit ", k2, " is index ", ci[1]);
+                  // (stir::get(Array<1>, BasicCoordinate<1>) does not compile: two of its overloads are equally specialised)
+                  VF_CHECK(&x[ci] == &x[ci[1]] && &x.at(ci) == &x[ci[1]], after, " access through BasicCoordinate<1>");
+                  ++k2;
+                }
+              while (stir::next(ci, x));
+              VF_CHECK(k2 == mm.v.size(), after, " next() loop visited ", k2, " of ", mm.v.size());
+              const float* q = x.get_const_full_data_ptr();
+              x.release_const_full_data_ptr();
+              VF_CHECK(q == &x[mm.min], after, " get_const_full_data_ptr");
+            }
+          std::vector<float> out(mm.v.size() + 2, -12345.F);
+          auto oe = stir::copy_to(x, out.begin());
+          VF_CHECK(oe == out.begin() + std::ptrdiff_t(mm.v.size()), after, " copy_to end iterator");
+          for (std::size_t i = 0; i < mm.v.size(); ++i)
+            VF_CHECK(same(out[i], mm.v[i]), after, " copy_to element ", i);
+          VF_CHECK(out[mm.v.size()] == -12345.F, after, " copy_to wrote beyond size_all() elements");
+        }
+      }
+    return Result::pass();
+  }
+
+  // aliasing with the viewed buffer (all kinds)
+  Result compare_alias(int s, const char* after)
+  {
+    if (buf && may_alias[s])
+      {
+        Vec& xx = *o[s];
+        const Vec& x = xx;
+        const M1<T>& mm = m[s];
+        const T* p = mm.empty() ? nullptr : &x[mm.min];
+        const bool inside = p && p >= buf.get() && p + mm.v.size() <= buf.get() + buf_len;
+        if (view_attached[s] && !mm.empty())
+          VF_CHECK(inside, after, " view must still alias the shared buffer (no resize beyond it happened)");
+        if (inside)
           {
-            Vec& xx = *o[s];
-            const T* p = mm.empty() ? nullptr : &x[mm.min];
-            const bool inside = p && p >= buf.get() && p + mm.v.size() <= buf.get() + buf_len;
-            if (view_attached[s] && !mm.empty())
-              VF_CHECK(inside, after, " view must still alias the shared buffer (no resize beyond it happened)");
-            if (inside)
-              {
-                // exact aliasing both ways
-                const std::size_t off = std::size_t(p - buf.get());
-                for (std::size_t i = 0; i < mm.v.size(); ++i)
-                  VF_CHECK(same(buf[std::ptrdiff_t(off + i)], mm.v[i]), after, " buffer does not show the array's value");
-                buf[std::ptrdiff_t(off)] = mk<T>(77);
-                VF_CHECK(same(xx[mm.min], mk<T>(77)), after, " array does not show a write to the buffer");
-                buf[std::ptrdiff_t(off)] = mm.v[0];
-              }
-            else
-              view_attached[s] = false;
+            // exact aliasing both ways
+            const std::size_t off = std::size_t(p - buf.get());
+            for (std::size_t i = 0; i < mm.v.size(); ++i)
+              if (mm.def[i])
+                VF_CHECK(same(buf[std::ptrdiff_t(off + i)], mm.v[i]), after, " buffer does not show the array's value");
+            buf[std::ptrdiff_t(off)] = mk<T>(77);
+            VF_CHECK(same(xx[mm.min], mk<T>(77)), after, " array does not show a write to the buffer");
+            buf[std::ptrdiff_t(off)] = mm.v[0];
           }
+        else
+          view_attached[s] = false;
       }
     return Result::pass();
   }
@@ -235,6 +340,9 @@ struct Interp1
         if (r.failed())
           return r;
         r = compare_array_extras(s, after);
+        if (r.failed())
+          return r;
+        r = compare_alias(s, after);
         if (r.failed())
           return r;
       }
@@ -467,8 +575,177 @@ struct Interp1
           return r;
         break;
       }
-      case 18: { // construct a view on the shared buffer (arrays only), slot 0
+      case 18: { // construct a view on a buffer, slot 0
         Result r = make_view(c, d, after);
+        if (r.failed())
+          return r;
+        break;
+      }
+      case 19: { // the other constructors: length, copying from a bare pointer, from IndexRange<1>, from the base type
+        int mn, mxi;
+        decode_range(c, d, mn, mxi);
+        const int len = mxi - mn + 1;
+        std::vector<T> data;
+        for (int i = 0; i < len + 1; ++i)
+          data.push_back(mk<T>(i + 1));
+        const int variant = int(((c / 9) + (d / 7)) % 5);
+        M1<T> nm;
+        bool defined = true;
+        if (variant == 0)
+          { // (length): indices 0..length-1
+            if constexpr (is_array)
+              o[s].reset(new Vec(IndexRange<1>(len)));
+            else
+              o[s].reset(new Vec(len));
+            nm.resize(0, len - 1, zero_new);
+            defined = false;
+          }
+        else if (variant == 1)
+          { // (length, const T*): copies
+            if constexpr (is_array)
+              o[s].reset(new Vec(IndexRange<1>(len), static_cast<const T*>(data.data())));
+            else
+              o[s].reset(new Vec(len, static_cast<const T*>(data.data())));
+            nm.resize(0, len - 1, true);
+          }
+        else if (variant == 2)
+          { // (min, max, const T*): copies
+            if constexpr (is_array)
+              o[s].reset(new Vec(IndexRange<1>(mn, mxi), static_cast<const T*>(data.data())));
+            else
+              o[s].reset(new Vec(mn, mxi, static_cast<const T*>(data.data())));
+            nm.resize(mn, mxi, true);
+          }
+        else if (variant == 3)
+          { // from an object of the base type (contents of slot t)
+            if (s == t)
+              break;
+            if constexpr (is_numeric)
+              {
+                if constexpr (is_array)
+                  {
+                    const stir::NumericVectorWithOffset<T, T>& base = *o[t];
+                    o[s].reset(new Vec(base));
+                  }
+                else
+                  {
+                    const VectorWithOffset<T>& base = *o[t];
+                    o[s].reset(new Vec(base));
+                  }
+                m[s] = m[t];
+                view_attached[s] = may_alias[s] = false;
+              }
+            break;
+          }
+        else
+          { // Array<1>(IndexRange<1>) / (min,max) again for the others
+            if constexpr (is_array)
+              o[s].reset(new Vec(IndexRange<1>(mn, mxi)));
+            else
+              o[s].reset(new Vec(mn, mxi));
+            nm.resize(mn, mxi, zero_new);
+            defined = false;
+          }
+        if (defined)
+          for (std::size_t i = 0; i < nm.v.size(); ++i)
+            nm.v[i] = data[i];
+        mx_ = nm;
+        view_attached[s] = may_alias[s] = false;
+        data.assign(data.size(), mk<T>(-7)); // the copying constructors must not refer to the source afterwards
+        break;
+      }
+      case 20: { // resize / grow / reserve with the (unsigned new_size) overloads: range 0..new_size-1
+        const unsigned n = unsigned(((d % 7) + 7) % 7);
+        const int which = int(((c % 3) + 3) % 3);
+        if (which == 0)
+          {
+            if (view_attached[s] && !(n > 0 && fits_capacity(x, 0, int(n) - 1)))
+              view_attached[s] = false;
+            x.resize(n);
+            mx_.resize(0, int(n) - 1, zero_new);
+          }
+        else if (which == 1)
+          { // documented precondition of grow(): the old range is a sub-interval of the new one (VectorWithOffset.h)
+            if (!mx_.empty() && (mx_.min < 0 || mx_.max() > int(n) - 1))
+              break;
+            if (view_attached[s] && !(n > 0 && fits_capacity(x, 0, int(n) - 1)))
+              view_attached[s] = false;
+            x.grow(n);
+            mx_.resize(0, int(n) - 1, zero_new);
+          }
+        else
+          {
+            if (n == 0)
+              break;
+            if (view_attached[s] && !fits_capacity_union(x, 0, int(n) - 1))
+              view_attached[s] = false;
+            x.reserve(n);
+          }
+        break;
+      }
+      case 21: { // swap (the friend function found by argument-dependent lookup)
+        if (s == t)
+          break;
+        swap(*o[s], *o[t]);
+        std::swap(m[s], m[t]);
+        std::swap(view_attached[s], view_attached[t]);
+        std::swap(may_alias[s], may_alias[t]);
+        break;
+      }
+      case 22: { // writes through the non-const iterators
+        const T val = mk<T>(int(d % 50));
+        std::size_t k = 0;
+        for (auto it = x.begin(); it != x.end(); ++it, ++k)
+          if ((long(k) + c) % 2 == 0)
+            {
+              *it = val;
+              mx_.v[k] = val;
+              mx_.def[k] = 1;
+            }
+        VF_CHECK(k == mx_.v.size(), after, " non-const iteration count");
+        if (!mx_.empty() && (c & 4))
+          {
+            *x.rbegin() = mk<T>(int(c % 50));
+            mx_.v.back() = mk<T>(int(c % 50));
+            mx_.def.back() = 1;
+            VF_CHECK(&*(x.rend() - 1) == &x[mx_.min], after, " rend()");
+          }
+        if constexpr (is_array)
+          {
+            k = 0;
+            for (auto it = x.begin_all(); it != x.end_all(); ++it, ++k)
+              if (k % 3 == 0)
+                {
+                  *it = val + mk<T>(1);
+                  mx_.v[k] = val + mk<T>(1);
+                }
+            if (!mx_.empty())
+              { // Array<1>'s own full data pointer
+                T* fp = x.get_full_data_ptr();
+                VF_CHECK(fp == &x[mx_.min], after, " Array<1>::get_full_data_ptr address");
+                fp[mx_.v.size() - 1] = mk<T>(9);
+                x.release_full_data_ptr();
+                mx_.v.back() = mk<T>(9);
+              }
+            std::vector<T> src;
+            for (std::size_t i = 0; i < mx_.v.size(); ++i)
+              src.push_back(mk<T>(int((c + long(i)) % 50)));
+            if (d & 8)
+              { // fill_from of copy_fill.h: exactly size_all() elements
+                stir::fill_from(x, src.begin(), src.end());
+                mx_.v = src;
+              }
+          }
+        break;
+      }
+      case 23: { // operators returning new objects (object and scalar operands)
+        Result r = binary_new(s, t, c, d, after);
+        if (r.failed())
+          return r;
+        break;
+      }
+      case 24: { // xapyb / sapyb with ARRAY coefficients, axpby (numeric family only)
+        Result r = xapyb_arrays(s, t, c, d, after);
         if (r.failed())
           return r;
         break;
@@ -553,11 +830,8 @@ struct Interp1
             return Result::pass();
           }
       }
-    if constexpr (is_array)
+    if constexpr (is_numeric)
       {
-        if (which == 3)
-          { // avoid integer-valued zero divisors only to keep NaN/Inf out of min/max; still legal floats
-          }
         // documented: grows automatically to the hull; new elements are T() (0) before the operation;
         // an empty left operand becomes v (+=), -v (-=), 0*v (*=, /=)
         M1<T> res;
@@ -578,9 +852,12 @@ struct Interp1
             // documented: "grow the vector automatically if the 2nd argument has smaller min_index and/or larger
             // max_index"; an empty 2nd argument reports the range 0..-1, so the hull can include index 0
             const int tmin = mt.empty() ? 0 : mt.min, tmax = mt.empty() ? -1 : mt.max();
-            res.resize(std::min(ms.min, tmin), std::max(ms.max(), tmax), true);
+            // (for a NumericVectorWithOffset that is not an Array the newly exposed elements are default-initialised, i.e.
+            // unspecified for int: they stay "undefined" in the model, also after the operation)
+            res.resize(std::min(ms.min, tmin), std::max(ms.max(), tmax), zero_new_);
             for (int i = tmin; i <= tmax; ++i)
-              do_op(res.v[std::size_t(i - res.min)], mt.v[std::size_t(i - mt.min)]);
+              if (res.def[std::size_t(i - res.min)])
+                do_op(res.v[std::size_t(i - res.min)], mt.v[std::size_t(i - mt.min)]);
           }
         if (view_attached[s] && !(res.v.size() == ms.v.size()))
           view_attached[s] = false;
@@ -643,10 +920,13 @@ struct Interp1
 
   Result numeric_ops(int s, int t, long c, long d, const char* after)
   {
-    if constexpr (is_array)
+    if constexpr (is_numeric)
       {
         Vec& x = *o[s];
         M1<T>& ms = m[s];
+        for (int k : { s, t, (t + 1) % NS })
+          if (!all_defined(m[k]))
+            return Result::pass();
         const int which = int(((c % 7) + 7) % 7);
         const T val = T(int(d % 9) - 4);
         if constexpr (std::is_same<T, int>::value)
@@ -715,12 +995,13 @@ struct Interp1
               break;
             Vec r = x + *o[t];
             M1<T> res = ms;
-            res.resize(std::min(ms.min, m[t].min), std::max(ms.max(), m[t].max()), true);
+            res.resize(std::min(ms.min, m[t].min), std::max(ms.max(), m[t].max()), zero_new_);
             for (int i = m[t].min; i <= m[t].max(); ++i)
               res.v[std::size_t(i - res.min)] += m[t].v[std::size_t(i - m[t].min)];
             VF_CHECK(r.size() == res.v.size() && r.get_min_index() == res.min, after, " operator+ range");
             for (int i = res.min; i <= res.max(); ++i)
-              VF_CHECK(same(r[i], res.v[std::size_t(i - res.min)]), after, " operator+ value at ", i);
+              if (res.def[std::size_t(i - res.min)])
+                VF_CHECK(same(r[i], res.v[std::size_t(i - res.min)]), after, " operator+ value at ", i);
             break;
           }
           }
@@ -730,30 +1011,302 @@ struct Interp1
 
   Result make_view(long c, long d, const char* after)
   {
+    int mn, mxi;
+    decode_range(c, d, mn, mxi);
+    if (mn > mxi)
+      return Result::pass();
+    // detach every previous viewer first: a fresh buffer per view keeps the model simple
+    for (int s = 0; s < NS; ++s)
+      if (may_alias[s])
+        {
+          o[s].reset(new Vec());
+          m[s] = M1<T>();
+          may_alias[s] = view_attached[s] = false;
+        }
+    const int len = mxi - mn + 1;
+    // variants (not for Array<1>, which has its own constructors): 0 (min,max,shared_ptr), 1 (size,shared_ptr),
+    // 2/3 the deprecated (min,max,T*,T* end) / (size,T*,T* end) with up to 2 elements of spare capacity behind the range
+    const int variant = is_array ? 0 : int(((c / 9) + (d / 7)) % 4);
+    const int spare = variant >= 2 ? int((c / 9) % 3) : 0;
+    buf_len = len + spare;
+    buf = stir::shared_ptr<T[]>(new T[std::size_t(buf_len)]);
+    for (int i = 0; i < buf_len; ++i)
+      buf[i] = mk<T>(i + 1);
     if constexpr (is_array)
+      o[0].reset(new Vec(IndexRange<1>(mn, mxi), buf));
+    else
       {
-        int mn, mxi;
-        decode_range(c, d, mn, mxi);
-        if (mn > mxi)
+        if (variant == 1 || variant == 3)
+          {
+            mxi -= mn;
+            mn = 0;
+          }
+        if (variant == 0)
+          o[0].reset(new Vec(mn, mxi, buf));
+        else if (variant == 1)
+          o[0].reset(new Vec(len, buf));
+        else
+          {
+#if STIR_VERSION < 070000
+            old_bufs.push_back(buf);
+#  pragma GCC diagnostic push
+#  pragma GCC diagnostic ignored "-Wdeprecated-declarations"
+            if (variant == 2)
+              o[0].reset(new Vec(mn, mxi, buf.get(), buf.get() + buf_len));
+            else
+              o[0].reset(new Vec(len, buf.get(), buf.get() + buf_len));
+#  pragma GCC diagnostic pop
+#else
+            o[0].reset(new Vec(mn, mxi, buf));
+#endif
+          }
+      }
+    m[0] = M1<T>();
+    m[0].resize(mn, mxi, true);
+    for (int i = 0; i < len; ++i)
+      m[0].v[std::size_t(i)] = mk<T>(i + 1);
+    may_alias[0] = view_attached[0] = true;
+    return Result::pass();
+  }
+
+  static bool same_r(const M1<T>& p, const M1<T>& q) { return p.v.size() == q.v.size() && (p.empty() || p.min == q.min); }
+  static double max_abs(const M1<T>& mm)
+  {
+    double a = 0;
+    if constexpr (std::is_arithmetic<T>::value)
+      for (const T& e : mm.v)
+        a = std::max(a, std::fabs(double(e)));
+    return a;
+  }
+
+  // model of "l op r" (op = + - * /); returns 0: defined result in res, 1: must be reported as an error, 2: not decided
+  // (undefined operands; integer division by zero / possible signed overflow = the caller's error, as in binary())
+  int model_bin(const M1<T>& ml, const M1<T>& mr, int which, M1<T>& res)
+  {
+    if (!all_defined(ml) || !all_defined(mr))
+      return 2;
+    auto do_op = [which](T& l, const T& r) {
+      switch (which)
+        {
+        case 0: l += r; break;
+        case 1: l -= r; break;
+        case 2: l *= r; break;
+        default: l /= r; break;
+        }
+    };
+    if constexpr (std::is_same<T, int>::value)
+      {
+        if (which == 3 && std::any_of(mr.v.begin(), mr.v.end(), [](const T& e) { return e == 0; }))
+          return 2;
+        const double as = max_abs(ml), at = max_abs(mr);
+        if ((which == 2 ? as * at : (which == 3 ? as : as + at)) > 1073741824.)
+          return 2;
+      }
+    if constexpr (is_numeric)
+      { // documented hull growth (NumericVectorWithOffset.inl); see binary()
+        if (ml.empty())
+          {
+            res = mr;
+            for (auto& e : res.v)
+              {
+                if (which == 1)
+                  e *= T(-1);
+                else if (which >= 2)
+                  e *= T(0);
+              }
+            return 0;
+          }
+        res = ml;
+        const int tmin = mr.empty() ? 0 : mr.min, tmax = mr.empty() ? -1 : mr.max();
+        res.resize(std::min(ml.min, tmin), std::max(ml.max(), tmax), zero_new_);
+        for (int i = tmin; i <= tmax; ++i)
+          if (res.def[std::size_t(i - res.min)])
+            do_op(res.v[std::size_t(i - res.min)], mr.v[std::size_t(i - mr.min)]);
+        return 0;
+      }
+    else
+      { // VectorWithOffset.h: "Arguments must have matching index ranges. Otherwise error() is called."
+        if (!same_r(ml, mr))
+          return 1;
+        res = ml;
+        for (std::size_t i = 0; i < res.v.size(); ++i)
+          do_op(res.v[i], mr.v[i]);
+        return 0;
+      }
+  }
+
+  Result compare_value(const Vec& r, const M1<T>& res, const char* after, const char* what)
+  {
+    VF_CHECK(r.size() == res.v.size(), after, " ", what, ": size ", r.size(), " model ", res.v.size());
+    if (!res.empty())
+      VF_CHECK(r.get_min_index() == res.min, after, " ", what, ": min index ", r.get_min_index(), " model ", res.min);
+    for (int i = res.min; i <= res.max(); ++i)
+      if (res.def[std::size_t(i - res.min)])
+        VF_CHECK(same(r[i], res.v[std::size_t(i - res.min)]), after, " ", what, ": value at ", i);
+    return Result::pass();
+  }
+
+  // operator+ - * / returning new objects; both operands must stay as they are (compare_all)
+  Result binary_new(int s, int t, long c, long d, const char* after)
+  {
+    const Vec& x = *o[s];
+    const Vec& y = *o[t];
+    const int which = int(((c % 4) + 4) % 4);
+    const bool scalar = is_numeric && ((c / 4) % 2 == 1);
+    if (!scalar)
+      {
+        M1<T> res;
+        const int k = model_bin(m[s], m[t], which, res);
+        if (k == 2)
           return Result::pass();
-        // detach every previous viewer first: a fresh buffer per view keeps the model simple
-        for (int s = 0; s < NS; ++s)
-          if (may_alias[s])
+        bool threw = false;
+        stir_verif::asserts_on = false; // only the library's own error reporting counts
+        try
+          {
+            const Vec r = which == 0 ? Vec(x + y) : which == 1 ? Vec(x - y) : which == 2 ? Vec(x * y) : Vec(x / y);
+            stir_verif::asserts_on = true;
+            if (k == 0)
+              {
+                Result rr = compare_value(r, res, after, "operator returning a new object");
+                if (rr.failed())
+                  return rr;
+              }
+          }
+        catch (const std::exception&)
+          {
+            threw = true;
+          }
+        stir_verif::asserts_on = true;
+        VF_CHECK(threw == (k == 1), after, " binary operator ", which, " returning a new object: ranges [", m[s].min, ",", m[s].max(), "] and [",
+                 m[t].min, ",", m[t].max(), "] threw=", threw);
+      }
+    else
+      {
+        if constexpr (is_numeric)
+          {
+            if (!all_defined(m[s]))
+              return Result::pass();
+            const T val = T(int(d % 9) - 4);
+            if (which == 3 && val == T(0))
+              return Result::pass();
+            if (std::is_same<T, int>::value && max_abs(m[s]) > 134217728.)
+              return Result::pass();
+            M1<T> res = m[s];
+            for (auto& e : res.v)
+              switch (which)
+                {
+                case 0: e += val; break;
+                case 1: e -= val; break;
+                case 2: e *= val; break;
+                default: e /= val; break;
+                }
+            const Vec r = which == 0 ? Vec(x + val) : which == 1 ? Vec(x - val) : which == 2 ? Vec(x * val) : Vec(x / val);
+            Result rr = compare_value(r, res, after, "operator with a scalar returning a new object");
+            if (rr.failed())
+              return rr;
+          }
+      }
+    return Result::pass();
+  }
+
+  // xapyb(x, a, y, b) / sapyb(a, y, b) with ARRAY coefficients and the deprecated axpby: "index ranges don't match" is an error
+  // (NumericVectorWithOffset.inl) and must leave *this unchanged; otherwise every element is x*a + y*b.
+  // c % 5 selects the operand whose range is changed (0 none, 1 x, 2 a, 3 y, 4 b), (c / 5) % 6 how; d % 6 the call form.
+  Result xapyb_arrays(int s, int t, long c, long d, const char* after)
+  {
+    if constexpr (is_numeric)
+      {
+        Vec& x = *o[s];
+        M1<T>& ms = m[s];
+        const int u = (t + 1) % NS;
+        const int victim = int(((c % 5) + 5) % 5), how = int((((c / 5) % 6) + 6) % 6), form = int(((d % 6) + 6) % 6);
+        SplitMix g(uint64_t(c) * 1000003ULL + uint64_t(d));
+        if (!all_defined(ms) || max_abs(ms) > 134217728.)
+          return Result::pass();
+        auto make_model = [&](bool change) {
+          M1<T> r;
+          int mn = ms.empty() ? 0 : ms.min, mxi = ms.empty() ? -1 : ms.max();
+          if (change)
             {
-              o[s].reset(new Vec());
-              m[s] = M1<T>();
-              may_alias[s] = view_attached[s] = false;
+              if (mn > mxi)
+                mxi = mn; // the only way to differ from an empty range
+              else
+                switch (how)
+                  {
+                  case 0: mxi += 1; break;
+                  case 1: mxi -= 1; break; // same first index, shorter at the upper end
+                  case 2: mn -= 1; break;
+                  case 3: mn += 1; break;
+                  case 4: mn += 1; mxi += 1; break;
+                  default: mxi = mn - 1; break;
+                  }
             }
-        buf_len = mxi - mn + 1;
-        buf = stir::shared_ptr<T[]>(new T[std::size_t(buf_len)]);
-        for (int i = 0; i < buf_len; ++i)
-          buf[i] = T(i + 1);
-        o[0].reset(new Vec(IndexRange<1>(mn, mxi), buf));
-        m[0] = M1<T>();
-        m[0].resize(mn, mxi, true);
-        for (int i = 0; i < buf_len; ++i)
-          m[0].v[std::size_t(i)] = T(i + 1);
-        may_alias[0] = view_attached[0] = true;
+          r.resize(mn, mxi, true);
+          for (auto& e : r.v)
+            e = T(int(g.range(-3, 3)));
+          return r;
+        };
+        auto make_obj = [](const M1<T>& mm) {
+          std::unique_ptr<Vec> v(mm.empty() ? new Vec() : new Vec(mm.min, mm.max()));
+          for (int i = mm.min; i <= mm.max(); ++i)
+            (*v)[i] = mm.v[std::size_t(i - mm.min)];
+          return v;
+        };
+        // operands: temporaries with the range of *this (one of them possibly changed); form 4 takes x and y from the slots
+        M1<T> mX = make_model(victim == 1), mA = make_model(victim == 2), mY = make_model(victim == 3), mB = make_model(victim == 4);
+        std::unique_ptr<Vec> X = make_obj(mX), A = make_obj(mA), Y = make_obj(mY), B = make_obj(mB);
+        const Vec *px = X.get(), *py = Y.get();
+        if (form == 3)
+          { // sapyb: x is *this
+            mX = ms;
+            px = &x;
+          }
+        else if (form == 4)
+          {
+            if (!all_defined(m[t]) || !all_defined(m[u]) || max_abs(m[t]) > 134217728. || max_abs(m[u]) > 134217728.)
+              return Result::pass();
+            mX = m[t];
+            mY = m[u];
+            px = o[t].get();
+            py = o[u].get();
+          }
+        const T aa = T(int(g.range(-2, 2))), bb = T(int(g.range(-2, 2)));
+        const bool ok = form == 5 ? (same_r(ms, mX) && same_r(ms, mY)) : (same_r(ms, mX) && same_r(ms, mA) && same_r(ms, mY) && same_r(ms, mB));
+        bool threw = false;
+        stir_verif::asserts_on = false; // only the library's own error reporting counts
+        try
+          {
+            if (form == 3)
+              x.sapyb(*A, *py, *B);
+            else if (form == 5)
+              {
+#pragma GCC diagnostic push
+#pragma GCC diagnostic ignored "-Wdeprecated-declarations"
+                x.axpby(aa, *px, bb, *py);
+#pragma GCC diagnostic pop
+              }
+            else
+              x.xapyb(*px, *A, *py, *B);
+          }
+        catch (const std::exception&)
+          {
+            threw = true;
+          }
+        stir_verif::asserts_on = true;
+        stats().cls(ok ? "xapyb with array coefficients: matching ranges" : "xapyb with array coefficients: one operand differs");
+        VF_CHECK(threw == !ok, after, " xapyb/sapyb with array coefficients (form ", form, ", operand ", victim, " changed by rule ", how,
+                 "): ranges compatible=", ok, " threw=", threw);
+        if (ok)
+          {
+            M1<T> res = ms;
+            for (std::size_t i = 0; i < ms.v.size(); ++i)
+              res.v[i] = form == 5 ? (mX.v[i] * aa + mY.v[i] * bb) : (mX.v[i] * mA.v[i] + mY.v[i] * mB.v[i]);
+            ms = res;
+            if (form == 4 && s == t)
+              m[t] = res;
+            if (form == 4 && s == u)
+              m[u] = res;
+          }
       }
     return Result::pass();
   }
@@ -1013,6 +1566,152 @@ model_binary(MN& a, const MN& b, int which)
     }
 }
 
+// nested range of a model
+static RN
+rn_of(const MN& m)
+{
+  RN r;
+  if (m.n() == 0)
+    return r;
+  r.min = m.min;
+  r.max = m.max();
+  if (m.dim > 1)
+    for (auto& s : m.sub)
+      r.sub.push_back(rn_of(s));
+  return r;
+}
+static bool
+rn_equal(const RN& a, const RN& b)
+{
+  if (a.max - a.min != b.max - b.min)
+    return false;
+  if (a.max < a.min)
+    return true;
+  if (a.min != b.min || a.sub.size() != b.sub.size())
+    return false;
+  for (std::size_t i = 0; i < a.sub.size(); ++i)
+    if (!rn_equal(a.sub[i], b.sub[i]))
+      return false;
+  return true;
+}
+// change a nested range at one node: one index more / fewer at either end, shifted by one, or emptied
+static void
+perturb_rn(RN& r, int dim, SplitMix& g)
+{
+  const int len = r.max - r.min + 1;
+  if (dim > 1 && len > 0 && g.range(0, 2) != 0)
+    {
+      perturb_rn(r.sub[std::size_t(g.range(0, len - 1))], dim - 1, g);
+      return;
+    }
+  RN child;
+  if (dim > 1)
+    child = len > 0 ? r.sub[std::size_t(g.range(0, len - 1))] : gen_range(g, dim - 1, true);
+  const int how = len == 0 ? 0 : int(g.range(0, 5));
+  switch (how)
+    {
+    case 0:
+      if (len == 0)
+        r.min = r.max = 0;
+      else
+        r.max++;
+      if (dim > 1)
+        r.sub.push_back(child);
+      break;
+    case 1:
+      r.min--;
+      if (dim > 1)
+        r.sub.insert(r.sub.begin(), child);
+      break;
+    case 2:
+      r.max--;
+      if (dim > 1)
+        r.sub.pop_back();
+      break;
+    case 3:
+      r.min++;
+      if (dim > 1)
+        r.sub.erase(r.sub.begin());
+      break;
+    case 4:
+      r.min++;
+      r.max++;
+      break;
+    default:
+      r.max = r.min - 1;
+      break;
+    }
+  if (r.max < r.min)
+    {
+      r.min = 0;
+      r.max = -1;
+      r.sub.clear();
+    }
+}
+// all multi-indices of a model in row-major order
+static void
+model_indices(const MN& m, std::vector<int>& prefix, std::vector<std::vector<int>>& out)
+{
+  for (int i = m.min; i <= m.max(); ++i)
+    {
+      prefix.push_back(i);
+      if (m.dim == 1)
+        out.push_back(prefix);
+      else
+        model_indices(m.sub[std::size_t(i - m.min)], prefix, out);
+      prefix.pop_back();
+    }
+}
+// does the model contain a zero-length row (at any level) although it is not empty at the top?
+static bool
+model_has_empty_row(const MN& m)
+{
+  if (m.dim == 1)
+    return false;
+  for (auto& s : m.sub)
+    if (s.n() == 0 || model_has_empty_row(s))
+      return true;
+  return false;
+}
+// expected result of get_regular_range() for a regular model: IndexRange.cxx fills (0,-1) for all levels below an empty one
+static void
+model_regular_coords(const MN& m, std::vector<int>& mn, std::vector<int>& mx)
+{
+  if (m.n() == 0)
+    {
+      for (int k = 0; k < m.dim; ++k)
+        {
+          mn.push_back(0);
+          mx.push_back(-1);
+        }
+      return;
+    }
+  mn.push_back(m.min);
+  mx.push_back(m.max());
+  if (m.dim > 1)
+    model_regular_coords(m.sub[0], mn, mx);
+}
+
+// the idiom of ML_norm.cxx / find_sinogram_rescaling_factors.cxx: default-construct, grow, assign the rows in place
+template <int K>
+static IndexRange<K>
+build_in_place(const RN& r)
+{
+  if constexpr (K == 1)
+    return IndexRange<1>(r.min, r.max);
+  else
+    {
+      IndexRange<K> out;
+      if (r.min <= r.max)
+        {
+          out.grow(r.min, r.max);
+          for (int i = r.min; i <= r.max; ++i)
+            out[i] = build_in_place<K - 1>(r.sub[std::size_t(i - r.min)]);
+        }
+      return out;
+    }
+}
+
 template <int D>
 struct InterpN
 {
@@ -1098,6 +1797,11 @@ struct InterpN
       VF_CHECK(x.is_regular() == ir.is_regular(), after, " is_regular differs between array and its range");
     }
     VF_CHECK(same(x.sum(), model_sum(mm)), after, " sum ", x.sum(), " model ", model_sum(mm));
+    {
+      Result r3 = compare_entry_points(s, after, flat);
+      if (r3.failed())
+        return r3;
+    }
     if (!flat.empty() && std::none_of(flat.begin(), flat.end(), [](float f) { return std::isnan(f); }))
       {
         bool every_row_nonempty = true;
@@ -1124,6 +1828,154 @@ struct InterpN
       }
     return Result::pass();
   }
+  static float model_sum_positive(const MN& mm)
+  { // Array.inl: double accumulator per level, result cast to float per level
+    double acc = 0;
+    if (mm.dim == 1)
+      {
+        for (auto e : mm.v)
+          if (e > 0)
+            acc += e;
+      }
+    else
+      for (auto& s2 : mm.sub)
+        acc += model_sum_positive(s2);
+    return float(acc);
+  }
+  template <int K>
+  static const float& elem_c(const Array<K, float>& a, const std::vector<int>& mi, std::size_t lvl = 0)
+  {
+    if constexpr (K == 1)
+      return a[mi[lvl]];
+    else
+      return elem_c<K - 1>(a[mi[lvl]], mi, lvl + 1);
+  }
+  template <int K>
+  static float& elem(Array<K, float>& a, const std::vector<int>& mi, std::size_t lvl = 0)
+  {
+    if constexpr (K == 1)
+      return a[mi[lvl]];
+    else
+      return elem<K - 1>(a[mi[lvl]], mi, lvl + 1);
+  }
+
+  // Entry points that only read (entry-point audit): sum_positive, const access through BasicCoordinate ([] / at / get()),
+  // get_min_indices + next() (array_index_functions), copy_to (copy_fill.h), the const full data pointer, full-iterator
+  // post-increment / -> / conversion to the const iterator, equality of the reported IndexRange
+  Result compare_entry_points(int s, const std::string& after, const std::vector<float>& flat)
+  {
+    Arr& xx = *o[s];
+    const Arr& x = xx;
+    const MN& mm = m[s];
+    VF_CHECK(same(x.sum_positive(), model_sum_positive(mm)), after, " sum_positive ", x.sum_positive(), " model ", model_sum_positive(mm));
+    std::vector<std::vector<int>> idxs;
+    {
+      std::vector<int> prefix;
+      model_indices(mm, prefix, idxs);
+    }
+    VF_CHECK(idxs.size() == flat.size(), after, " (model) index list");
+    for (std::size_t k = 0; k < idxs.size(); ++k)
+      {
+        const stir::BasicCoordinate<D, int> cc = coord(idxs[k]);
+        const float* p = &elem_c<D>(x, idxs[k]);
+        VF_CHECK(&x[cc] == p && &x.at(cc) == p && &stir::get(x, cc) == p && &xx[cc] == p, after, " access through BasicCoordinate, element ", k);
+        stir::BasicCoordinate<1, int> c1;
+        c1[1] = idxs[k][0];
+        VF_CHECK(&stir::get(x, c1) == &x[idxs[k][0]] && &x.at(idxs[k][0]) == &x[idxs[k][0]] && &xx.at(idxs[k][0]) == &x[idxs[k][0]], after,
+                 " get(array, BasicCoordinate<1>) / at(int)");
+        if constexpr (D >= 3)
+          {
+            stir::BasicCoordinate<2, int> c2;
+            c2[1] = idxs[k][0];
+            c2[2] = idxs[k][1];
+            VF_CHECK(&stir::get(x, c2) == &x[idxs[k][0]][idxs[k][1]], after, " get(array, BasicCoordinate<2>)");
+          }
+      }
+    // the loop documented in array_index_functions.h: index = get_min_indices(a); do {...} while (next(index, a));
+    // "will fail for empty arrays" (documented) => only for arrays with elements
+    if (!flat.empty())
+      {
+        if (model_has_empty_row(mm) && excluded("C11:next:empty-row"))
+          ;
+        else
+          {
+            stir::BasicCoordinate<D, int> ci = stir::get_min_indices(x);
+            std::size_t k = 0;
+            do
+              {
+                VF_CHECK(k < idxs.size(), after, " next(): more than ", idxs.size(), " visits");
+                VF_CHECK(ci == coord(idxs[k]), after, " get_min_indices/next(): visit ", k, " is ", show(ci), " expected ", show(coord(idxs[k])));
+                ++k;
+              }
+            while (stir::next(ci, x));
+            VF_CHECK(k == idxs.size(), after, " next() loop visited ", k, " of ", idxs.size());
+          }
+        // next() with an index of lower dimension iterates over the outer index only
+        stir::BasicCoordinate<1, int> c1;
+        c1[1] = mm.min;
+        int visits = 1;
+        while (stir::next(c1, x))
+          ++visits;
+        VF_CHECK(visits == int(mm.n()) && c1[1] == mm.max() + 1, after, " next(BasicCoordinate<1>, array) visits ", visits);
+      }
+    // copy_to: exactly size_all() elements in row-major order, returns the advanced iterator
+    {
+      std::vector<float> out(flat.size() + 2, -12345.F);
+      auto oe = stir::copy_to(x, out.begin());
+      VF_CHECK(oe == out.begin() + std::ptrdiff_t(flat.size()), after, " copy_to end iterator");
+      for (std::size_t i = 0; i < flat.size(); ++i)
+        VF_CHECK(same(out[i], flat[i]), after, " copy_to element ", i);
+      VF_CHECK(out[flat.size()] == -12345.F, after, " copy_to wrote beyond size_all() elements");
+    }
+    if (!flat.empty())
+      {
+        const bool contig = x.is_contiguous();
+        bool threw = false;
+        try
+          {
+            const float* p = x.get_const_full_data_ptr();
+            for (std::size_t i = 0; i < flat.size(); ++i)
+              VF_CHECK(same(p[i], flat[i]), after, " const full data ptr element ", i);
+          }
+        catch (const std::runtime_error&)
+          {
+            threw = true;
+          }
+        x.release_const_full_data_ptr();
+        VF_CHECK(threw == !contig, after, " get_const_full_data_ptr: contiguous=", contig, " threw=", threw);
+      }
+    // full iterators: post-increment, ->, copy, default construction + assignment, conversion to the const iterator
+    {
+      typename Arr::full_iterator it = xx.begin_all();
+      typename Arr::const_full_iterator cit = it; // conversion
+      typename Arr::const_full_iterator dflt;
+      dflt = x.begin_all_const();
+      VF_CHECK(cit == dflt && !(cit != x.begin_all()), after, " full_iterator -> const_full_iterator conversion / comparison");
+      std::size_t k = 0;
+      while (it != xx.end_all())
+        {
+          VF_CHECK(k < flat.size(), after, " full iteration (post-increment) too long");
+          typename Arr::full_iterator was = it++;
+          VF_CHECK(same(*was, flat[k]) && was.operator->() == &*was, after, " full iterator post-increment / -> at ", k);
+          ++k;
+        }
+      VF_CHECK(k == flat.size(), after, " full iteration (post-increment) visited ", k, " of ", flat.size());
+    }
+    {
+      const IndexRange<D> ir = x.get_index_range();
+      const IndexRange<D> ir2 = x.get_index_range();
+      VF_CHECK(ir == ir2 && !(ir != ir2), after, " IndexRange::operator== of two reports of the same array");
+    }
+    return Result::pass();
+  }
+  static std::string show(const stir::BasicCoordinate<D, int>& cc)
+  {
+    std::string r = "(";
+    for (int k = 1; k <= D; ++k)
+      r += (k > 1 ? "," : "") + std::to_string(cc[k]);
+    return r + ")";
+  }
+
   static void check_rows_nonempty(const MN& mm, bool& ok)
   {
     if (mm.n() == 0)
@@ -1282,13 +2134,10 @@ struct InterpN
         const float val = float(int(d % 50)) + 0.5F;
         if (d & 1)
           x[coord(mi)] = val;
+        else if (d & 2)
+          x.at(coord(mi)) = val;
         else
-          {
-            if constexpr (D == 2)
-              x[mi[0]][mi[1]] = val;
-            else
-              x[mi[0]][mi[1]][mi[2]] = val;
-          }
+          elem<D>(x, mi) = val; // nested operator[]
         model_at(ms, mi) = val;
         break;
       }
@@ -1315,6 +2164,42 @@ struct InterpN
         stir_verif::asserts_on = true;
         VF_CHECK(threw == !inside, after, " at(", mi[0], ",", mi[1], D > 2 ? cat(",", mi[2]) : std::string(), ") inside=", inside,
                  " threw=", threw);
+        {
+          const Arr& cx = x;
+          threw = false;
+          stir_verif::asserts_on = false;
+          try
+            {
+              (void)cx.at(coord(mi));
+            }
+          catch (const std::out_of_range&)
+            {
+              threw = true;
+            }
+          stir_verif::asserts_on = true;
+          VF_CHECK(threw == !inside, after, " const at(BasicCoordinate) inside=", inside, " threw=", threw);
+          const bool inside1 = ms.n() > 0 && mi[0] >= ms.min && mi[0] <= ms.max();
+          bool threw1 = false, threw2 = false;
+          stir_verif::asserts_on = false;
+          try
+            {
+              (void)cx.at(mi[0]);
+            }
+          catch (const std::out_of_range&)
+            {
+              threw1 = true;
+            }
+          try
+            {
+              (void)x.at(mi[0]);
+            }
+          catch (const std::out_of_range&)
+            {
+              threw2 = true;
+            }
+          stir_verif::asserts_on = true;
+          VF_CHECK(threw1 == !inside1 && threw2 == !inside1, after, " at(", mi[0], ") inside=", inside1, " threw=", threw1, "/", threw2);
+        }
         break;
       }
       case 14: { // binary arithmetic with automatic growing to the hull
@@ -1494,10 +2379,376 @@ struct InterpN
           }
         break;
       }
+      case 21: // swap (the friend function found by argument-dependent lookup)
+        if (s != t)
+          {
+            swap(*o[s], *o[t]);
+            std::swap(m[s], m[t]);
+            if (viewer == s)
+              viewer = t;
+            else if (viewer == t)
+              viewer = s;
+          }
+        break;
+      case 22: { // operations on a ROW (sub-array) of the array, and the outer-level resize inherited from VectorWithOffset
+        Result r = row_op<D>(x, ms, g, after);
+        if (r.failed())
+          return r;
+        break;
+      }
+      case 23: { // operators returning new objects (inherited from NumericVectorWithOffset; Array(const base_type&))
+        const int which = int(((c % 4) + 4) % 4);
+        if ((c / 4) % 2 == 0)
+          {
+            MN res = ms;
+            model_binary(res, m[t], which);
+            const Arr r(which == 0 ? (x + *o[t]) : which == 1 ? (x - *o[t]) : which == 2 ? (x * *o[t]) : (x / *o[t]));
+            Result rr = cmp<D>(r, res, after + " result of binary operator " + std::to_string(which));
+            if (rr.failed())
+              return rr;
+          }
+        else
+          {
+            const float val = float(int(d % 9) - 4);
+            if (which == 3 && val == 0.F)
+              break;
+            MN res = ms;
+            model_for_each(res, [which, val](float& e) {
+              switch (which)
+                {
+                case 0: e += val; break;
+                case 1: e -= val; break;
+                case 2: e *= val; break;
+                default: e /= val; break;
+                }
+            });
+            const Arr r(which == 0 ? (x + val) : which == 1 ? (x - val) : which == 2 ? (x * val) : (x / val));
+            Result rr = cmp<D>(r, res, after + " result of scalar operator " + std::to_string(which));
+            if (rr.failed())
+              return rr;
+          }
+        break;
+      }
+      case 24: { // xapyb / sapyb with ARRAY coefficients and the deprecated axpby
+        Result r = xapyb_arrays(s, t, c, d, g, after);
+        if (r.failed())
+          return r;
+        break;
+      }
+      case 25: { // fill_from (copy_fill.h) and writes through the non-const full iterator
+        std::vector<float> flat;
+        model_flatten(ms, flat);
+        if (d & 1)
+          {
+            std::vector<float> src;
+            for (std::size_t i = 0; i < flat.size(); ++i)
+              src.push_back(float(int((c + long(i)) % 50)) + 0.25F);
+            stir::fill_from(x, src.begin(), src.end()); // exactly size_all() elements ("no size/range-check on iter")
+            std::size_t k = 0;
+            model_for_each(ms, [&](float& e) { e = src[k++]; });
+          }
+        else
+          {
+            std::size_t k = 0;
+            for (auto it = x.begin_all(); it != x.end_all(); ++it, ++k)
+              {
+                VF_CHECK(k < flat.size(), after, " non-const full iteration too long");
+                if ((long(k) + c) % 2 == 0)
+                  *it = float(k) - 3.F;
+              }
+            VF_CHECK(k == flat.size(), after, " non-const full iteration visited ", k, " of ", flat.size());
+            k = 0;
+            model_for_each(ms, [&](float& e) {
+              if ((long(k) + c) % 2 == 0)
+                e = float(k) - 3.F;
+              ++k;
+            });
+          }
+        break;
+      }
+      case 26: { // IndexRange<D> objects built in every public way answer for their CURRENT contents
+        Result r = index_range_op(c, d, g, after);
+        if (r.failed())
+          return r;
+        break;
+      }
       default:
         break;
       }
     return compare_all(after);
+  }
+
+  template <int K>
+  Result row_op(Array<K, float>& a, MN& mm, SplitMix& g, const std::string& after)
+  {
+    if constexpr (K >= 2)
+      {
+        const int what = int(g.range(0, 6));
+        if (what == 6 || mm.n() == 0)
+          { // VectorWithOffset<Array<K-1>>::resize(min,max) (what NumericVectorWithOffset::operator+= calls to grow): rows that
+            // survive keep their contents, new rows are empty arrays
+            VectorWithOffset<Array<K - 1, float>>& base = a;
+            const int mn = int(g.range(-2, 2)), len = int(g.range(0, 3));
+            base.resize(mn, mn + len - 1);
+            RN r = rn_of(mm);
+            std::vector<RN> subs;
+            for (int i = mn; i <= mn + len - 1; ++i)
+              subs.push_back((r.max >= r.min && i >= r.min && i <= r.max) ? r.sub[std::size_t(i - r.min)] : RN());
+            r.sub = subs;
+            r.min = len ? mn : 0;
+            r.max = len ? mn + len - 1 : -1;
+            model_resize(mm, r, K);
+            return Result::pass();
+          }
+        const int i = mm.min + int(g.range(0, long(mm.n()) - 1));
+        Array<K - 1, float>& row = a[i];
+        MN& rm = mm.sub[std::size_t(i - mm.min)];
+        if (K >= 3 && (g.range(0, 1) == 1))
+          return row_op<K - 1>(row, rm, g, after);
+        const RN r = gen_range(g, K - 1, (g.range(0, 1) == 1));
+        switch (what)
+          {
+          case 0:
+            row.resize(to_index_range<K - 1>(r));
+            model_resize(rm, r, K - 1);
+            break;
+          case 1:
+            row.grow(to_index_range<K - 1>(r)); // Array.h: "alias for resize()"
+            model_resize(rm, r, K - 1);
+            break;
+          case 2: { // assignment of a fresh array to the row
+            Array<K - 1, float> fresh(to_index_range<K - 1>(r));
+            fresh.fill(2.5F);
+            row = fresh;
+            rm = MN();
+            rm.dim = K - 1;
+            model_resize(rm, r, K - 1);
+            model_for_each(rm, [](float& e) { e = 2.5F; });
+            break;
+          }
+          case 3:
+            row.fill(-1.5F);
+            model_for_each(rm, [](float& e) { e = -1.5F; });
+            break;
+          case 4:
+            row *= 2.F;
+            model_for_each(rm, [](float& e) { e *= 2.F; });
+            break;
+          default: { // row += fresh array (grows the row to the hull)
+            Array<K - 1, float> fresh(to_index_range<K - 1>(r));
+            fresh.fill(1.F);
+            MN fm;
+            fm.dim = K - 1;
+            model_resize(fm, r, K - 1);
+            model_for_each(fm, [](float& e) { e = 1.F; });
+            row += fresh;
+            model_binary(rm, fm, 0);
+            break;
+          }
+          }
+      }
+    return Result::pass();
+  }
+
+  // an array with the given nested range and small integer values; its model
+  static std::unique_ptr<Arr> make_array(const RN& r, SplitMix& g, MN& mm)
+  {
+    std::unique_ptr<Arr> v(new Arr(to_index_range<D>(r)));
+    for (auto it = v->begin_all(); it != v->end_all(); ++it)
+      *it = float(g.range(-3, 3));
+    read_back<D>(*v, mm);
+    return v;
+  }
+
+  // Array.inl: "Array::xapyb: index ranges don't match" is an error() whenever get_index_range() of an operand differs from
+  // that of *this (at any level); *this must then be unchanged; otherwise every element is x*a + y*b.
+  // c % 5: operand whose range is changed (0 none, 1 x, 2 a, 3 y, 4 b; where and how from the seed); d % 6: call form.
+  Result xapyb_arrays(int s, int t, long c, long d, SplitMix& g, const std::string& after)
+  {
+    Arr& x = *o[s];
+    MN& ms = m[s];
+    const int u = (t + 1) % NS;
+    const int victim = int(((c % 5) + 5) % 5), form = int(((d % 6) + 6) % 6);
+    const RN r0 = rn_of(ms);
+    RN rr[4] = { r0, r0, r0, r0 }; // x a y b
+    if (victim > 0)
+      perturb_rn(rr[victim - 1], D, g);
+    MN mo[4];
+    std::unique_ptr<Arr> ob[4];
+    for (int k = 0; k < 4; ++k)
+      ob[k] = make_array(rr[k], g, mo[k]);
+    const Arr *px = ob[0].get(), *py = ob[2].get();
+    if (form == 3)
+      {
+        mo[0] = ms;
+        rr[0] = r0;
+        px = &x;
+      }
+    else if (form == 4)
+      {
+        mo[0] = m[t];
+        mo[2] = m[u];
+        rr[0] = rn_of(m[t]);
+        rr[2] = rn_of(m[u]);
+        px = o[t].get();
+        py = o[u].get();
+      }
+    const float aa = float(g.range(-2, 2)), bb = float(g.range(-2, 2));
+    const bool ok = form == 5 ? (rn_equal(r0, rr[0]) && rn_equal(r0, rr[2]))
+                              : (rn_equal(r0, rr[0]) && rn_equal(r0, rr[1]) && rn_equal(r0, rr[2]) && rn_equal(r0, rr[3]));
+    bool threw = false;
+    stir_verif::asserts_on = false; // only the library's own error reporting counts
+    try
+      {
+        if (form == 3)
+          x.sapyb(*ob[1], *py, *ob[3]);
+        else if (form == 5)
+          {
+#pragma GCC diagnostic push
+#pragma GCC diagnostic ignored "-Wdeprecated-declarations"
+            x.axpby(aa, *px, bb, *py);
+#pragma GCC diagnostic pop
+          }
+        else
+          x.xapyb(*px, *ob[1], *py, *ob[3]);
+      }
+    catch (const std::exception&)
+      {
+        threw = true;
+      }
+    stir_verif::asserts_on = true;
+    stats().cls(ok ? "xapyb with array coefficients: matching ranges" : "xapyb with array coefficients: one operand differs");
+    VF_CHECK(threw == !ok, after, " xapyb/sapyb with array coefficients (form ", form, ", operand ", victim, " changed): this ", show_range(r0),
+             " x ", show_range(rr[0]), " a ", show_range(rr[1]), " y ", show_range(rr[2]), " b ", show_range(rr[3]), " compatible=", ok,
+             " threw=", threw);
+    if (ok)
+      {
+        std::vector<float> f[4];
+        for (int k = 0; k < 4; ++k)
+          model_flatten(mo[k], f[k]);
+        std::size_t k = 0;
+        MN res = ms;
+        model_for_each(res, [&](float& e) {
+          e = form == 5 ? (f[0][k] * aa + f[2][k] * bb) : (f[0][k] * f[1][k] + f[2][k] * f[3][k]);
+          ++k;
+        });
+        ms = res;
+        if (form == 4 && s == t)
+          m[t] = res;
+        if (form == 4 && s == u)
+          m[u] = res;
+      }
+    return Result::pass();
+  }
+
+  // IndexRange<D>: constructed from a VectorWithOffset of sub-ranges, from BasicCoordinates (min,max) / (sizes), copied, or
+  // built / changed in place through the inherited VectorWithOffset interface; size_all(), is_regular(), get_regular_range(),
+  // ==, != and an Array constructed from it must describe the CURRENT contents.
+  Result index_range_op(long c, long d, SplitMix& g, const std::string& after)
+  {
+    const int path = int(((c % 6) + 6) % 6);
+    RN r2 = gen_range(g, D, (d & 1) != 0); // the final range
+    MN m2;
+    m2.dim = D;
+    model_resize(m2, r2, D);
+    const bool reg2 = model_regular(m2);
+    std::vector<int> emn, emx;
+    model_regular_coords(m2, emn, emx);
+    bool all_levels_nonempty = true;
+    for (int k = 0; k < D; ++k)
+      all_levels_nonempty = all_levels_nonempty && emx[std::size_t(k)] >= emn[std::size_t(k)];
+    std::unique_ptr<IndexRange<D>> A;
+    int flag = -1; // what the cached regularity knowledge of A says before an in-place change: -1 none, 0 irregular, 1 regular
+    bool changed_in_place = false;
+    const char* how = "";
+    if (path == 1)
+      { // copy of a range that was already asked
+        IndexRange<D> tmp = to_index_range<D>(r2);
+        (void)tmp.is_regular();
+        A.reset(new IndexRange<D>(tmp));
+        how = "copy after is_regular()";
+      }
+    else if (path == 2 && reg2 && all_levels_nonempty)
+      { // regular constructors
+        stir::BasicCoordinate<D, int> mn, mx, sz;
+        bool zero_based = true;
+        for (int k = 1; k <= D; ++k)
+          {
+            mn[k] = emn[std::size_t(k - 1)];
+            mx[k] = emx[std::size_t(k - 1)];
+            sz[k] = mx[k] - mn[k] + 1;
+            zero_based = zero_based && mn[k] == 0;
+          }
+        if (zero_based && (g.range(0, 1) == 1))
+          A.reset(new IndexRange<D>(sz));
+        else
+          A.reset(new IndexRange<D>(mn, mx));
+        how = "BasicCoordinate constructor";
+      }
+    else if (path == 3)
+      { // default-construct, grow, assign the rows (ML_norm.cxx, find_sinogram_rescaling_factors.cxx)
+        A.reset(new IndexRange<D>(build_in_place<D>(r2)));
+        flag = 1; // IndexRange(): "regular"
+        changed_in_place = true;
+        how = "default-constructed, grown, rows assigned";
+      }
+    else if (path == 4 || path == 5)
+      { // an existing range (regular constructor, or any range after is_regular()) is changed in place to r2
+        const RN r1 = gen_range(g, D, path == 4 ? true : (g.range(0, 1) == 1));
+        MN m1;
+        m1.dim = D;
+        model_resize(m1, r1, D);
+        A.reset(new IndexRange<D>(to_index_range<D>(r1)));
+        flag = A->is_regular() ? 1 : 0;
+        VF_CHECK((flag == 1) == model_regular(m1), after, " IndexRange::is_regular ", flag, " model ", model_regular(m1), " for ", show_range(r1));
+        A->resize(r2.min, r2.max);
+        for (int i = r2.min; i <= r2.max; ++i)
+          (*A)[i] = to_index_range<D - 1>(r2.sub[std::size_t(i - r2.min)]);
+        changed_in_place = true;
+        how = "asked, then changed in place";
+      }
+    else
+      {
+        A.reset(new IndexRange<D>(to_index_range<D>(r2)));
+        how = "from VectorWithOffset";
+      }
+    // known finding: the cached knowledge is not invalidated by changes through the inherited interface
+    if (changed_in_place && flag != (reg2 ? 1 : 0) && excluded("C11:IndexRange:stale-regularity-flag"))
+      return Result::pass();
+    stats().cls(std::string("IndexRange ") + how);
+    const std::string w = after + " IndexRange (" + how + ") " + show_range(r2);
+    VF_CHECK(A->size_all() == m2.size_all(), w, " size_all ", A->size_all(), " model ", m2.size_all());
+    VF_CHECK(A->is_regular() == reg2, w, " is_regular ", A->is_regular(), " model ", reg2);
+    stir::BasicCoordinate<D, int> gmn, gmx;
+    VF_CHECK(A->get_regular_range(gmn, gmx) == reg2, w, " get_regular_range model ", reg2);
+    if (reg2)
+      for (int k = 1; k <= D; ++k)
+        VF_CHECK(gmn[k] == emn[std::size_t(k - 1)] && gmx[k] == emx[std::size_t(k - 1)], w, " get_regular_range dimension ", k, ": ", gmn[k], "..",
+                 gmx[k], " expected ", emn[std::size_t(k - 1)], "..", emx[std::size_t(k - 1)]);
+    VF_CHECK(A->size_all() == m2.size_all() && A->is_regular() == reg2, w, " second query differs");
+    if (m2.n() > 0)
+      VF_CHECK(A->get_min_index() == m2.min && A->get_max_index() == m2.max(), w, " outer range");
+    else
+      VF_CHECK(A->get_length() == 0, w, " outer length");
+    {
+      const IndexRange<D> C(*A);
+      VF_CHECK(C == *A && !(C != *A) && C.size_all() == m2.size_all() && C.is_regular() == reg2, w, " copy differs");
+      RN r3 = r2;
+      if ((g.range(0, 1) == 1))
+        perturb_rn(r3, D, g);
+      const IndexRange<D> B = to_index_range<D>(r3);
+      const bool eq = rn_equal(r2, r3);
+      VF_CHECK((*A == B) == eq && (*A != B) == !eq && (B == *A) == eq, w, " operator== with ", show_range(r3), " model ", eq);
+    }
+    {
+      const Arr y(*A); // allocates size_all() elements and lays out every row in them
+      MN z = m2;
+      Result r = cmp<D>(y, z, w + " Array(range)");
+      if (r.failed())
+        return r;
+      VF_CHECK(y.size_all() == m2.size_all(), w, " Array(range).size_all()");
+    }
+    return Result::pass();
   }
 
   template <int K>
@@ -1547,6 +2798,22 @@ check(const json& c)
   const int kind = c["kind"].get<int>();
   const json& ops = c["ops"];
   Result r;
+  g_excluded_in_case.clear();
+  {
+    static const char* kind_name[7] = { "kind 0 VectorWithOffset<int>", "kind 1 Array<1,float>", "kind 2 Array<2,float>", "kind 3 Array<3,float>",
+                                        "kind 4 VectorWithOffset<counting type>", "kind 5 Array<4,float>", "kind 6 NumericVectorWithOffset<float,float>" };
+    stats().cls(kind_name[kind >= 0 && kind <= 6 ? kind : 4]);
+    long n[32] = {};
+    for (const auto& op : ops)
+      {
+        const int code = op[0].get<int>();
+        if (code >= 0 && code < 32)
+          ++n[code];
+      }
+    for (int k = 19; k <= 26; ++k) // the operations added by the entry-point audit
+      if (n[k])
+        stats().count(cat("ops executed: code ", k), n[k]);
+  }
   switch (kind)
     {
     case 0: {
@@ -1569,6 +2836,19 @@ check(const json& c)
       r = I.run(ops);
       break;
     }
+    case 5: {
+      InterpN<4> I;
+      r = I.run(ops);
+      break;
+    }
+    case 6: { // the numeric family directly (not through Array<1>): elements exposed by growing are default-initialised, i.e.
+      // unspecified for an arithmetic element type, and += etc. then operate on them.  float, not int: with int the library's own
+      // arithmetic on the indeterminate new elements is a signed overflow for UBSan (seen, outside the statement: the
+      // statement speaks of numeric ARRAYS, which zero-fill)
+      Interp1<stir::NumericVectorWithOffset<float, float>, float, false, false, true> I;
+      r = I.run(ops);
+      break;
+    }
     default: {
       Counted::live = 0;
       Counted::bad = 0;
@@ -1588,17 +2868,19 @@ check(const json& c)
 }
 
 // op codes available per kind
-const std::vector<int> ops1_plain = { 0, 1, 2, 3, 4, 5, 6, 7, 8, 9, 10, 11, 12, 13, 14, 15, 16 };
-const std::vector<int> ops1_array = { 0, 1, 2, 3, 4, 5, 6, 7, 8, 9, 10, 11, 12, 13, 14, 15, 16, 17, 18 };
-const std::vector<int> opsN = { 0, 1, 2, 3, 4, 5, 6, 10, 11, 12, 14, 15, 16, 17, 18, 19, 20 };
+const std::vector<int> ops1_plain = { 0, 1, 2, 3, 4, 5, 6, 7, 8, 9, 10, 11, 12, 13, 14, 15, 16, 18, 19, 20, 21, 22, 23 };
+const std::vector<int> ops1_array = { 0, 1, 2, 3, 4, 5, 6, 7, 8, 9, 10, 11, 12, 13, 14, 15, 16, 17, 18, 19, 20, 21, 22, 23, 24, 24 };
+const std::vector<int> opsN = { 0, 1, 2, 3, 4, 5, 6, 10, 11, 12, 14, 15, 16, 17, 18, 19, 20, 21, 22, 23, 24, 24, 25, 26 };
 
 json
 gen(Src& s, int size)
 {
   json c;
-  const int kind = int(s.range(0, 4));
+  // kinds: 0 VectorWithOffset<int>, 1 Array<1,float>, 2/3/5 Array<2/3/4,float>, 4 VectorWithOffset<counting type>,
+  // 6 NumericVectorWithOffset<float,float>
+  const int kind = int(s.range(0, 6));
   c["kind"] = kind;
-  const std::vector<int>& al = (kind == 0 || kind == 4) ? ops1_plain : kind == 1 ? ops1_array : opsN;
+  const std::vector<int>& al = (kind == 0 || kind == 4) ? ops1_plain : (kind == 1 || kind == 6) ? ops1_array : opsN;
   const long n = s.range(1, 5 + long(size) * 3);
   json ops = json::array();
   for (long i = 0; i < n; ++i)
@@ -1642,6 +2924,12 @@ const std::vector<Conc> conc = {
   { 12, 0, 0, 7, 0 }, // at() slot0 above/inside
   { 8, 0, 0, 0, 0 },  // recycle slot0
   { 13, 0, 0, 1, 9 }, // data ptr write
+  { 18, 0, 0, 4, 3 }, // slot0 = view on a buffer, range [0,2]
+  { 21, 0, 1, 0, 0 }, // swap(slot0, slot1)
+  { 20, 0, 0, 0, 5 }, // slot0.resize(5u)
+  { 24, 0, 0, 9, 0 }, // slot0.xapyb(x, a, y, b): b one shorter at the upper end (numeric kinds)
+  { 24, 0, 0, 0, 3 }, // slot0.sapyb(a, y, b), matching ranges
+  { 23, 0, 1, 0, 0 }, // slot0 + slot1
 };
 
 bool
@@ -1701,7 +2989,7 @@ nontrivial(const json& c)
         regrow = true;
       if (code == 3 || code == 4 || code == 2)
         assign = true;
-      if (code == 14 || code == 17)
+      if (code == 14 || code == 17 || code == 23 || code == 24)
         bin = true;
     }
   return regrow || assign || bin;
